@@ -263,3 +263,11 @@ _FRAG_NOTE_SEAM = " The word-separation assumption is discharged for the fragmen
 for _k in ("C01", "C02", "C04", "C06", "C09", "C11", "C17", "C18"):
     if _k in CHECKS and "separated as pre_process_data intends" in CHECKS[_k]["note"]:
         CHECKS[_k]["note"] += _FRAG_NOTE_SEAM
+
+CHECKS["C16"]["text"] += " Line pre-processing (E7, O-noraise): Parser.process_line, the end of parse_data and the whole of parse_data are evaluated abstractly on odd lines (SET with one / two / many words, punctuation only, lone quotes, comment markers in every order, statement words alone, equals signs, blanks) in every reachable state of the line machine, also as last line, and on odd scripts (empty, blank, quotes of odd parity, input.regex without value / in a comment / single-quoted / unbalanced): the pre-processing itself never raises."
+CHECKS["C16"]["engine"] += " + E7 linemodel (O-noraise)"
+CHECKS["C03"]["text"] += " Unsupported statements over several lines (a query over three lines, a skipped statement over two): whatever reaches the grammar is a run of that statement's own words, no entity appears, the line machine returns to its start state; known finding: an UPDATE whose SET clause starts a line yields a bogus SET entity."
+CHECKS["C05"]["text"] += " Also: a statement without ';' closed by the first line of the next statement is handed over whole (repaired: it lost its last character)."
+for _e in ENGINES:
+    if _e["name"] == "E7 linemodel":
+        _e["serves_properties"] = ["C03", "C05", "C06", "C07", "C08", "C09", "C14", "C16", "C17"]
